@@ -47,6 +47,7 @@ WithClauses(i, s, e, t, f, cs) == Report(i, s, e, t, f, cs, {j \in 1..Len(cs) : 
 WithStates(i, e, s, t, f) ==
     WithClauses(i, s, e, t, f,
         IF e.ev = "crash" THEN CrashClauses(s, e, t, f)
+        ELSE IF e.ev = "retry" THEN RetryClauses(s, e, t)
         ELSE IF e.ev = "damage" THEN DamageClauses(s, e, t)
         ELSE IF "fault" \in DOMAIN e THEN FaultClauses(s, e, t, f)
         ELSE AllClauses(s, e, t))
